@@ -915,6 +915,8 @@ theorem finishWilson_rex_eq (conf : Confidence Rex) (n k : ℕ) (hn : 0 < n) (hk
     rw [Quantile.wilsonCentre_val, Quantile.wilsonSpan_val]
   · exact (QSpec.lower_nonneg n k z.val hn hkn).1
   · exact (QSpec.upper_le_one n k z.val hn hkn).2
+  · exact (QSpec.upper_le_one n k z.val hn hkn).1
+  · exact (QSpec.lower_nonneg n k z.val hn hkn).2
 
 /-- `ci_wilson` at exact arithmetic, past the count tests and the probability test: the unclamped
     tail (every oracle, no sign condition on the critical value) -/
